@@ -69,8 +69,12 @@ structure QState (α : Type) where
   aeLvl : Option Nat := none     -- level applied at the last pop edge
   acc : Nat := 0
   yld : Nat := 0
+  sinceFree : Option Nat := none  -- push-clock edges since room was last freed (a yield); none = never
 
-def qcheck [BEq α] (N M lw : Nat) (q : QState α) (e : Ev α) (o : Out α) : List String × QState α :=
+/-- `req` = the minimum depth the user REQUESTED, `lr` = latency_readToFull.  `capacity-below-request`: the FIFO shows
+`full` (or refuses a push) while holding fewer items than were requested, although the push side has had `lr+2` of its
+clock edges to learn about the last yield (or nothing was ever yielded) — the FIFO is smaller than it was built for. -/
+def qcheck [BEq α] (N M lw req lr : Nat) (q : QState α) (e : Ev α) (o : Out α) : List String × QState α :=
   -- All flag / level / size outputs are checked in EVERY cycle from power-on, including the cycles in which a reset is
   -- asserted (the queue is empty then; the harness makes no request) and the first cycle after reset release.
   -- While the flag register has not yet seen a non-reset edge of its clock it holds its reset value; it is then read
@@ -109,11 +113,14 @@ def qcheck [BEq α] (N M lw : Nat) (q : QState α) (e : Ev α) (o : Out α) : Li
   let fillAfter := fill + (if accepts then 1 else 0) - (if yields then 1 else 0)
   let v8 := if o.pushSize < fillAfter then ["push-size-optimistic"] else []
   let v9 := if o.popSize > fillAfter then ["pop-size-optimistic"] else []
+  let settled := match q.sinceFree with | none => true | some n => n ≥ lr + 2
+  let v10 := if !inRst && fill < req && settled && (o.full || (e.pushReq && !o.pushValid)) then ["capacity-below-request"] else []
   let q1 := if yields then q.queue.drop 1 else q.queue
   let q2 := if e.popClk then q1.map (fun (x, a) => (x, a + 1)) else q1
   let q3 := if accepts then q2 ++ [(e.data, 0)] else q2
-  (v0 ++ v1 ++ v2 ++ v3 ++ v4 ++ v5 ++ v6 ++ v7 ++ v8 ++ v9,
+  (v0 ++ v1 ++ v2 ++ v3 ++ v4 ++ v5 ++ v6 ++ v7 ++ v8 ++ v9 ++ v10,
    { queue := q3
+     sinceFree := if yields then some 0 else (if e.pushClk then q.sinceFree.map (· + 1) else q.sinceFree)
      afLvl := if e.pushClk then (if e.pushRst then none else some e.afLevel) else q.afLvl
      aeLvl := if e.popClk then (if e.popRst then none else some (e.aeLevel % M)) else q.aeLvl
      acc := q.acc + (if accepts then 1 else 0)
@@ -127,7 +134,7 @@ variable {α : Type}
 /-- The same queue specification for the ready/valid wrapper `strm::fifo`: `accept` = `in.valid ∧ in.ready`,
 `yield` = `out.valid ∧ out.ready`.  With a fall-through FIFO (`fall`) a beat may be accepted and yielded in the
 same cycle while nothing is held. `q.queue` ages count clock cycles. -/
-def scheck [BEq α] (N lw : Nat) (fall : Bool) (q : QState α) (rst inValid : Bool) (d : α) (outReady : Bool)
+def scheck [BEq α] (N lw req lr : Nat) (fall : Bool) (q : QState α) (rst inValid : Bool) (d : α) (outReady : Bool)
     (inReady outValid : Bool) (outData : α) : List String × QState α :=
   if rst then
     -- nothing is held while the reset is asserted: the output must not claim a beat
@@ -150,10 +157,12 @@ def scheck [BEq α] (N lw : Nat) (fall : Bool) (q : QState α) (rst inValid : Bo
     let v7 := match q.queue with
               | (_, age) :: _ => if !outValid && age + 1 ≥ lw then ["not-exposed"] else []
               | [] => if fall && inValid && !outValid then ["not-exposed"] else []
+    let settled := match q.sinceFree with | none => true | some n => n ≥ lr + 2
+    let v8 := if q.queue.length < req && settled && !inReady then ["capacity-below-request"] else []
     let q1 := if yield && !direct then q.queue.drop 1 else q.queue
     let q2 := q1.map (fun (x, a) => (x, a + 1))
     let q3 := if accept && !direct then q2 ++ [(d, 0)] else q2
-    (v2 ++ v3 ++ v4 ++ v7,
-     { q with queue := q3, acc := q.acc + (if accept then 1 else 0), yld := q.yld + (if yield then 1 else 0) })
+    (v2 ++ v3 ++ v4 ++ v7 ++ v8,
+     { q with queue := q3, sinceFree := (if yield && !direct then some 0 else q.sinceFree.map (· + 1)), acc := q.acc + (if accept then 1 else 0), yld := q.yld + (if yield then 1 else 0) })
 
 end Gatery.C15
